@@ -21,8 +21,17 @@ class Run:
         self.pid = prop.ID
         self.tier = tier
         self.seed = seed
-        self.work = os.path.join(ROOT, "work", self.pid)
+        # one work directory per (property, checked tree); an exclusive lock serialises two runs of the same check on the
+        # same tree (their case/observation files would otherwise mix)
+        sub = self.pid
+        if os.path.realpath(vlib.REPO) != "/repo":
+            import hashlib
+            sub += "_alt_" + hashlib.md5(os.path.realpath(vlib.REPO).encode()).hexdigest()[:8]
+        self.work = os.path.join(ROOT, "work", sub)
         os.makedirs(self.work, exist_ok=True)
+        import fcntl
+        self._lock = open(os.path.join(self.work, ".lock"), "w")
+        fcntl.flock(self._lock, fcntl.LOCK_EX)
         os.makedirs(os.path.join(ROOT, "replay"), exist_ok=True)
         os.makedirs(os.path.join(ROOT, "evidence"), exist_ok=True)
         self.t0 = time.time()
